@@ -73,6 +73,47 @@ def ev(t, env):
     return BIN[op][1](a, b)
 
 
+
+class TooBig(Exception):
+    """evaluating the text on the real library would build an astronomically large integer (a left shift by more than 4096
+    bits, which is also outside the modelled domain): the case is not run"""
+
+
+def guard(t, env):
+    """Python-semantics evaluation in the library's order, refusing oversized shifts; any arithmetic error ends it quietly
+    (the library stops at the same point)"""
+    k = t[0]
+    if k == "num":
+        return t[1]
+    if k == "id":
+        return env[t[1]]
+    if k == "sizeof":
+        return TYPES[t[1]]
+    if k == "un":
+        v = guard(t[2], env)
+        return -v if t[1] == "-" else ~v
+    a, b = guard(t[2], env), guard(t[3], env)
+    op = t[1]
+    if op == "<<" and (b > 4096 or (b >= 0 and a.bit_length() + b > 1 << 20)):
+        raise TooBig
+    if op == "*" and a.bit_length() + b.bit_length() > 1 << 20:
+        raise TooBig
+    if op in ("/", "%"):
+        return a // b if op == "/" else a % b
+    return BIN[op][1](a, b)
+
+
+def safe_to_run(t, envs):
+    for e in envs:
+        try:
+            guard(t, e)
+        except TooBig:
+            return False
+        except Exception:  # noqa: BLE001 - ZeroDivisionError, negative shift count, unbound identifier: the library raises there too
+            pass
+    return True
+
+
 def lvl(t):
     return 7 if t[0] in ("num", "id", "sizeof") else 6 if t[0] == "un" else BIN[t[1]][0]
 
@@ -386,6 +427,9 @@ def run(env) -> Result:
         text = render(rnd, t, 0, extra)
         env1 = dict(consts); env1.update(ctx1)
         env2 = dict(consts); env2.update(ctx2)
+        if not safe_to_run(t, (env1, env2)):
+            res.feat("not-run: a left shift by more than 4096 bits (gigabyte-sized integer; outside the modelled domain)")
+            continue
         try:
             want1 = ("ok", ev(t, env1))
         except OutOfDomain:
